@@ -19,7 +19,7 @@ from .. import multi
 
 ID = "C18"
 LEVEL = "exploration"
-RULE = ("random base queries over 1-4 variables (depth<=4, full vocabulary; a fifth of them for_all queries with permuted universal and free domains), each compared with 3 variants produced by a "
+RULE = ("random base queries over 1-4 variables (depth<=4, full vocabulary; a fifth of them for_all queries with permuted universal and free domains, a tenth flatten queries with several conditions given in another order over a permuted parent domain), each compared with 3 variants produced by a "
         "random composition of the listed rewrites plus permuted declaration order, selection order and domain order, and "
         "the several-arguments spelling of a top-level conjunction; caching on. Non-trivial: the base result is neither "
         "empty nor the whole product and at least one variant differs syntactically from the base. distinct by hash.")
@@ -40,13 +40,28 @@ def plan(tier, seed):
 def floors(tier):
     return {"distinct_nontrivial": 300, "variants_compared": 5000, "cls:variant_syntactically_different": 3000,
             "cls:decl_order_permuted": 1000, "cls:sel_order_permuted": 500, "cls:split_top_and": 100,
-            "cls:nvars=3": 300, "cls:nvars=4": 100, "cls:for_all_query": 200}
+            "cls:nvars=3": 300, "cls:nvars=4": 100, "cls:for_all_query": 200, "cls:flatten_query": 100}
 
 
 def cases(spec, ctx):
     from . import c10
     for i in range(spec["n"]):
         rng = ctx.rng(spec["sub"], i)
+        if rng.random() < 0.12:
+            from . import c16
+            base = c16.gen_case(rng)
+            base["cond"] = rng.choice(["join3", "join3", "both", "elem_stacked"])
+            base["scalar"] = False
+            base["sel"] = rng.choice(["parent_elem", "elem_parent", "elem"])
+            base["caching"] = True
+            variants = []
+            for _ in range(3):
+                n = len(base["world"]["parents"])
+                pr = list(range(n))
+                rng.shuffle(pr)
+                variants.append({"cond_order": rng.choice([[0, 1, 2], [2, 1, 0], [1, 2, 0], [2, 0, 1], [0, 2, 1]]), "perm": pr})
+            yield {"flatten": base, "variants": variants}
+            continue
         if rng.random() < 0.2:
             fc = c10.gen_case(rng)
             fc["caching"] = True
@@ -120,7 +135,45 @@ def check_forall_case(case, ctx):
     ctx.sample({"for_all": {k: v for k, v in fc.items() if k != "world"}, "variant0": case["variants"][0], "rows": len(base)})
 
 
+def check_flatten_case(case, ctx):
+    from . import c16
+    import re
+    base = case["flatten"]
+    ctx.cls("cls:flatten_query")
+    es, ps = c16.build_world(base["world"])
+    try:
+        rows0 = set(c16.run(base, es, ps, True)[0])
+    except Exception as e:
+        ctx.fail("EXC", f"base: {type(e).__name__}: {e}")
+        return
+    for vi, v in enumerate(case["variants"]):
+        ctx.count("variants_compared")
+        vc = dict(base)
+        vc["cond_order"] = v["cond_order"]
+        vc["world"] = {"parents": [base["world"]["parents"][j] for j in v["perm"]]}
+        es2, ps2 = c16.build_world(vc["world"])
+        try:
+            rows = c16.run(vc, es2, ps2, True)[0]
+        except Exception as e:
+            ctx.fail("EXC", f"variant {vi}: {type(e).__name__}: {e}", variant=vi)
+            return
+        back = {f"Par{j}": f"Par{orig}" for j, orig in enumerate(v["perm"])}
+        alt = {tuple(back.get(x, x) for x in r) for r in rows}
+        if v["cond_order"] != base.get("cond_order"):
+            ctx.cls("cls:variant_syntactically_different")
+        if alt != rows0:
+            ctx.fail("FLATTEN_SET:" + ("missing" if rows0 - alt else "") + ("+extra" if alt - rows0 else ""),
+                     {"variant": vi, "condition_order": v["cond_order"], "parents_permutation": v["perm"],
+                      "only_base": sorted(rows0 - alt)[:6], "only_variant": sorted(alt - rows0)[:6]}, variant=vi)
+            break
+    if rows0:
+        ctx.nontrivial()
+    ctx.sample({"flatten": {k: v for k, v in base.items()}, "variant0": case["variants"][0], "rows": len(rows0)})
+
+
 def check_case(case, ctx):
+    if "flatten" in case:
+        return check_flatten_case(case, ctx)
     if "forall" in case:
         return check_forall_case(case, ctx)
     world = D.build_world(case["world"])
@@ -167,6 +220,8 @@ def check_case(case, ctx):
 def classify(f, ctx):
     """A variant that disagrees with the base: decide with the oracle which side is wrong, then K05 attribution on it."""
     case = f["case"]
+    if "flatten" in case:
+        return None
     if "forall" in case:
         if f["kind"] not in ("FORALL_SET:missing", "FORALL_SET:+extra") or "variant" not in f:
             return None
